@@ -17,7 +17,7 @@ def main():
     name = os.path.basename(mdir.rstrip("/"))
     patch = os.path.join(mdir, "patch.diff")
     meta = json.load(open(os.path.join(mdir, "meta.json")))
-    demos = [f for f in glob.glob(os.path.join(mdir, "*")) if not f.endswith(("patch.diff", "meta.json"))]
+    demos = [f for f in glob.glob(os.path.join(mdir, "*")) if not f.endswith(("patch.diff", "meta.json")) and os.path.isfile(f)]
     res = {"confirmed": {}, "checks": {}}
     sh("git checkout -- . && git clean -fdq -e out", wt)
     rc, out = sh("git apply --check %s" % patch, wt)
